@@ -17,6 +17,8 @@ pub fn c07(rep: &mut Report, tier: &str) {
     push(rep, c07_lines(&C07_SIGMA, if quick { 9 } else { 11 }));
     // bytes that are white space in Latin-1 occur inside ordinary multi-byte characters
     push(rep, c07_lines(&C07_SIGMA2, if quick { 7 } else { 9 }));
+    // ASCII specials without a role in the rules (round 11)
+    push(rep, c07_lines(&C07_SIGMA3, if quick { 7 } else { 8 }));
     push(rep, c07_typed(if quick { 6 } else { 8 }));
     push(rep, c07_roundtrip(if quick { 3 } else { 4 }, 2));
     push(rep, c07_roundtrip(2, if quick { 3 } else { 4 }));
